@@ -150,6 +150,7 @@ struct Prog {
     unsigned form = 0;
     if (is_x86) {
       if (kind == "absjmp") e = (variant & 1) ? xa.call(Imm(target)) : xa.jmp(Imm(target));
+      else if (kind == "absjcc") e = (variant & 1) ? xa.jz(Imm(target)) : xa.jb(Imm(target));     // 74/72 cb or 0F 84/82 cd
       else if (kind == "absmem") {
         x86::Mem m = x86::ptr(target);
         if (variant % 3 == 1) m.set_addr_abs(); else if (variant % 3 == 2) m.set_addr_rel();
@@ -164,7 +165,7 @@ struct Prog {
       else if (kind == "absadrp") e = aa.adrp(a64::x10, Imm(target));
     }
     size_t len = cur_off() - at;
-    w.beginObj().kv("e", "AbsRef").kv("kind", kind).kv("sec", sec + 1).kv("at", at).kv("len", len).kv("variant", variant).kv("form", form).kv("r", err_name(e)).kv("unres", unres());
+    w.beginObj().kv("e", "AbsRef").kv("kind", kind).kv("sec", sec + 1).kv("at", at).kv("len", len).kv("variant", variant).kv("form", form).kv("r", err_name(e)).kv("unres", unres()).kv("bk", code.has_base_address());
     wide(w, "target", target);
     if (e == Error::kOk) { refs.push_back(RefRec{sec, at, len}); w.kv("i", (long long)refs.size()); }
     w.endObj().emit(out);
@@ -357,7 +358,7 @@ static void run_program(FILE* out, vj::Rng& r, unsigned idx, unsigned max_action
         p.absref(page ? "absadrp" : "absadr", t, (unsigned)r.below(18));
       }
       else
-      p.absref((arch == Arch::kX64 && r.chance(1, 3)) ? "absmem" : "absjmp", t, (unsigned)r.below(18));
+      p.absref((arch == Arch::kX64 && r.chance(1, 3)) ? "absmem" : (arch != Arch::kAArch64 && r.chance(1, 4)) ? "absjcc" : "absjmp", t, (unsigned)r.below(18));
     }
     else if (c < 72) {
       // small sizes cannot hold an address and make relocation fail (reported) - keep them rare
